@@ -14,27 +14,25 @@ theorem linear_first (after steps : ℕ) (minc : ℚ) : linearCredit after steps
 
 theorem linear_range {after steps : ℕ} {minc : ℚ} (ha : 1 ≤ after) (hs : 1 ≤ steps) (h0 : 0 ≤ minc) (h1 : minc ≤ 1)
     (a : ℤ) : 0 ≤ linearCredit after steps minc a ∧ linearCredit after steps minc a ≤ 1 := by
-  rw [linear_eq_round ha]
+  rw [linear_eq_max ha h1]
   have h := linRaw_range (after := after) hs h0 h1 a
   constructor
-  · have := round4_mono (show (0 : ℚ) ≤ linRaw after steps minc a by linarith); rwa [round4_zero] at this
-  · have := round4_mono h.2; rwa [round4_one] at this
+  · exact le_trans h0 (rmax_ge_right _ _)
+  · apply rmax_le _ h1
+    have := round4_mono h.2; rwa [round4_one] at this
 
 theorem linear_antitone {after steps : ℕ} {minc : ℚ} (ha : 1 ≤ after) (hs : 1 ≤ steps) (h0 : 0 ≤ minc) (h1 : minc ≤ 1)
     {a b : ℤ} (h : a ≤ b) : linearCredit after steps minc b ≤ linearCredit after steps minc a := by
-  rw [linear_eq_round ha, linear_eq_round ha]; exact round4_mono (linRaw_antitone hs h0 h1 h)
+  rw [linear_eq_max ha h1, linear_eq_max ha h1]; exact rmax_mono (round4_mono (linRaw_antitone hs h0 h1 h))
 
-/-- "never below the configured minimum": needs the minimum to be a 4-decimal number (finding K2 shows the
-    hypothesis is necessary: `minimum_credit = 0.33333` gives 0.3333). -/
-theorem linear_ge_min_partial {after steps : ℕ} {minc : ℚ} (ha : 1 ≤ after) (hs : 1 ≤ steps) (h0 : 0 ≤ minc) (h1 : minc ≤ 1)
-    (k : ℤ) (hk : minc = (k : ℚ) / 10000) (a : ℤ) : minc ≤ linearCredit after steps minc a := by
-  rw [linear_eq_round ha]
-  have := round4_mono (linRaw_range (after := after) hs h0 h1 a).1
-  rwa [hk, round4_fix, ← hk] at this
+/-- **"never below the configured minimum"**, for every minimum in [0, 1] (after fix F14; before it this needed a minimum with at most
+    four decimals: `minimum_credit = 0.33333` gave 0.3333, former finding K2) -/
+theorem linear_ge_min {after steps : ℕ} {minc : ℚ} (ha : 1 ≤ after) (h1 : minc ≤ 1) (a : ℤ) :
+    minc ≤ linearCredit after steps minc a := by
+  rw [linear_eq_max ha h1]; exact rmax_ge_right _ _
 
-/-- witness that the hypothesis of `linear_ge_min_partial` cannot be dropped (known finding K2) -/
-theorem linear_ge_min_needs_4_decimals :
-    ¬ ((33333 : ℚ) / 100000 ≤ linearCredit 1 4 (33333 / 100000) 10) := by
+/-- the former K2 witness now meets its minimum -/
+theorem linear_k2_witness : (33333 : ℚ) / 100000 ≤ linearCredit 1 4 (33333 / 100000) 10 := by
   decide +kernel
 
 theorem geometric_first (f : ℚ) : geometricCredit f 1 = 1 := by simp [geometricCredit]
